@@ -17,6 +17,7 @@ import edzed
 
 from .. import vtime
 from ..simrun import Sim, Probe
+from ..enc import enc, enc_data
 
 ID = 'C12'
 RULE = ("scripts on the virtual clock (tick 0.25 s): 1..3 arrivals on the slots {0,1,2,3,4,6} (non-decreasing, incl. "
@@ -228,6 +229,7 @@ FIXED = [
 
 def scenarios(rng, tier):
     yield from FIXED
+    yield from block_scenarios(rng, tier)
     if tier == 'quick':
         for scn in grid():
             if rng.random() < 0.03:
@@ -559,6 +561,8 @@ def fmt_log(log, mode):
 
 
 def run_impl(scn):
+    if scn.get('kind'):
+        return run_blocks(scn)
     run = execute(scn)
     mode = scn['mode']
     sd = f"{SD_ID}:{SD_DUR * TICK}:0:{int(SD_ID in scn.get('empty', ()))}" if scn['stop_data'] else '-'
@@ -634,6 +638,8 @@ def _plain(d):
 # res['stim'] (arrivals/stop as they really happened), res['log'] and res['results'].
 
 def oracle(scn, res):
+    if scn.get('kind'):
+        return oracle_blocks(scn, res)
     out = []
 
     def bad(clause, what, **sig):
@@ -824,4 +830,283 @@ def oracle(scn, res):
                 bad('stop_data_last', f'stop_data started at {starts[SD_ID][0]} before the end of runs {late} / not as the last run')
             if starts[SD_ID][0] < t_stop:
                 bad('stop_data_last', f'stop_data started at {starts[SD_ID][0]} before the stop at {t_stop}')
+    return out
+
+
+# ================================================================ constructors and OutputFunc
+# (model lean/EdzedModel/OutputBlocks.lean, driver prefix `oblocks`)
+
+ARGSPECS = ('L:value', 'L:', 'L:a,b', 'L:a,#', 'S', 'N')
+EVARGS = ('n', 'e1', 'e2', 'b')
+MODE_STRINGS = ('c', 'cancel', 'w', 'wait', 's', 'start', 'C', 'Wait', '', 'x', 'cancel ')
+
+
+def dec_argspec(e):
+    if e == 'S':
+        return 'abc'
+    if e == 'N':
+        return 5
+    body = e[2:]
+    return tuple(7 if x == '#' else x for x in body.split(',')) if body else ()
+
+
+def enc_argspec(v):
+    if isinstance(v, str):
+        return 'S'
+    if not isinstance(v, (list, tuple)):
+        return 'N'
+    return 'L:' + ','.join(x if isinstance(x, str) else '#' for x in v)
+
+
+def dec_evarg(e, probes):
+    if e == 'n':
+        return None
+    if e == 'b':
+        return 42
+    k = int(e[1:])
+    evs = [edzed.Event(probes[i % len(probes)], f'ev{i}') for i in range(k)]
+    return evs[0] if k == 1 else evs
+
+
+def classify(err):
+    msg = str(err)
+    if 'should be a sequence' in msg:
+        return 'argsNotStrings'
+    if 'Event-like' in msg:
+        return 'notEvents'
+    if "Argument 'mode'" in msg:
+        return 'badMode'
+    if 'must not exceed' in msg:
+        return 'guardExceeds'
+    if 'Invalid type for time period' in msg and 'object' in msg:
+        return 'badGuard'
+    return 'superInit'
+
+
+def sd_enc(sd):
+    return '-' if sd is None else enc_data(sd)
+
+
+def block_scenarios(rng, tier):
+    n_ctor, n_func = (600, 400) if tier == 'quick' else (20000, 8000)
+    for _ in range(n_ctor):
+        if rng.random() < 0.6:
+            yield {'kind': 'ctor', 'mode': rng.choice(MODE_STRINGS[:6] * 3 + MODE_STRINGS),
+                   'fa': rng.choice(ARGSPECS[:3] * 3 + ARGSPECS), 'fk': rng.choice(ARGSPECS[:3] * 3 + ARGSPECS),
+                   'g': rng.choice(['n', 'n', 0, 1, 4, 40, 41, -2, 'b']),
+                   'onS': rng.choice(EVARGS[:3] * 3 + EVARGS), 'onC': rng.choice(EVARGS[:3] * 3 + EVARGS),
+                   'onE': rng.choice(EVARGS[1:3] * 3 + EVARGS),
+                   'sd': rng.choice([None, None, {}, {'value': 1}]), 'st': rng.choice([None, None, 1, 4, 40, 'b'])}
+        else:
+            yield {'kind': 'fctor', 'fa': rng.choice(ARGSPECS[:3] * 3 + ARGSPECS), 'fk': rng.choice(ARGSPECS[:3] * 3 + ARGSPECS),
+                   'onS': rng.choice(EVARGS[:3] * 3 + EVARGS), 'onE': rng.choice(EVARGS[1:3] * 3 + EVARGS),
+                   'sd': rng.choice([None, {}, {'value': 1}]), 'sup': rng.random() < 0.85}
+    keys = ['value', 'a', 'b']
+    vals = [0, 1, 7, 'x', 'boom', None, True]
+    for _ in range(n_func):
+        fa = rng.choice([['value'], ['value'], [], ['a'], ['a', 'b'], ['b', 'a']])
+        fk = rng.choice([[], [], ['b'], ['value'], ['a', 'b']])
+
+        def data():
+            return {k: rng.choice(vals) for k in keys if rng.random() < 0.8}
+        yield {'kind': 'func', 'fa': fa, 'fk': fk, 'nS': rng.choice([0, 1, 2]), 'nE': rng.choice([1, 1, 2]),
+               'sd': rng.choice([None, None, {}, data(), data()]), 'puts': [data() for _ in range(rng.randint(0, 4))]}
+
+
+def run_blocks(scn):
+    kind = scn['kind']
+    edzed.reset_circuit()
+    probes = [Probe(f'p{i}') for i in range(2)]
+    if kind in ('ctor', 'fctor'):
+        kw = {}
+        if kind == 'ctor':
+            g = scn['g']
+            us = 'n' if g == 'n' else ('b' if g == 'b' else max(0, g) * TICK)
+            st = scn['st']
+            st_us = 'b' if st == 'b' else (10_000_000 if st is None else st * TICK)
+            line = (f"oblocks ctor {scn['mode'].replace(' ', '_') or '_'} {scn['fa']} {scn['fk']} {us} {scn['onS']} {scn['onC']} "
+                    f"{scn['onE']} {sd_enc(scn['sd'])} {st_us}")
+            if st is not None:
+                kw['stop_timeout'] = 'bad' if st == 'b' else st * TICK / 1e6
+
+            async def coro(*_a, **_k):
+                return None
+            try:
+                b = edzed.OutputAsync(
+                    'oa', coro=coro, mode=scn['mode'], f_args=dec_argspec(scn['fa']), f_kwargs=dec_argspec(scn['fk']),
+                    guard_time=(None if g == 'n' else (object() if g == 'b' else g * TICK / 1e6)),
+                    on_success=dec_evarg(scn['onS'], probes), on_cancel=dec_evarg(scn['onC'], probes),
+                    on_error=dec_evarg(scn['onE'], probes), stop_data=scn['sd'], **kw)
+                ctrl = ('cancel' if b._ctrl_coro == b._ctrl_cancel else 'wait' if b._ctrl_coro == b._ctrl_wait
+                        else 'start' if b._ctrl_coro == b._ctrl_start else '?')
+                reply = (f"ok {ctrl} {round(b._guard_time * 1e6)} {enc_argspec(b._f_args)} {enc_argspec(b._f_kwargs)} "
+                         f"{len(b._on_success)} {len(b._on_cancel)} {len(b._on_error)}")
+                attrs = {'stop_data': b._stop_data, 'stop_timeout': b.stop_timeout}
+            except (TypeError, ValueError) as err:
+                reply, attrs = 'err ' + classify(err), {'exc': type(err).__name__}
+        else:
+            line = (f"oblocks fctor {scn['fa']} {scn['fk']} {scn['onS']} {scn['onE']} {sd_enc(scn['sd'])} {int(scn['sup'])}")
+            if not scn['sup']:
+                kw['bogus_argument'] = 42   # refused by Block.__init__
+            try:
+                b = edzed.OutputFunc(
+                    'of', func=lambda *a, **k: None, f_args=dec_argspec(scn['fa']), f_kwargs=dec_argspec(scn['fk']),
+                    on_success=dec_evarg(scn['onS'], probes), on_error=dec_evarg(scn['onE'], probes),
+                    stop_data=scn['sd'], **kw)
+                reply = f"ok {enc_argspec(b._f_args)} {enc_argspec(b._f_kwargs)} {len(b._on_success)} {len(b._on_error)}"
+                attrs = {'stop_data': b._stop_data}
+            except (TypeError, ValueError) as err:
+                reply, attrs = 'err ' + classify(err), {'exc': type(err).__name__}
+        edzed.reset_circuit()
+        return {'lines': [line], 'trace': [reply], 'tags': [f'kind={kind}', 'ctor=' + reply.split()[0] + (':' + reply.split()[1] if reply.startswith('err') else '')],
+                'nontrivial': True, 'attrs': attrs}
+    # ---- OutputFunc in a running circuit
+    entries = []        # the implementation's log, rendered like the driver does
+
+    def script(*args, **kwargs):
+        entries.append('call(' + ','.join(enc(a) for a in args) + '|' + enc_data(kwargs) + ')')
+        if 'boom' in args or 'boom' in kwargs.values():
+            raise RuntimeError('boom')
+        return args[0] if args else None
+    lines = [f"oblocks func {','.join(scn['fa']) or '-'} {','.join(scn['fk']) or '-'} {scn['nS']} {scn['nE']} {sd_enc(scn['sd'])}"]
+    trace = []
+    steps = []
+    sim = Sim()
+
+    def build(circuit):
+        class P(Probe):
+            def _event(self, etype, data):
+                if etype == 'out':
+                    entries.append(f"output:{str(data['value']).lower()}")
+                elif etype.startswith('s'):
+                    entries.append(f"success{etype[1:]}:{enc(data.get('value'))}")
+                else:
+                    entries.append(f"error{etype[1:]}:{1 if isinstance(data.get('error'), RuntimeError) else '?'}")
+                steps.append((etype, dict(data)))
+        p = P('probe')
+        of = edzed.OutputFunc(
+            'of', func=script, f_args=scn['fa'], f_kwargs=scn['fk'],
+            on_success=[edzed.Event(p, f's{i}') for i in range(scn['nS'])],
+            on_error=[edzed.Event(p, f'e{i}') for i in range(scn['nE'])],
+            stop_data=scn['sd'], on_output=edzed.Event(p, 'out'))
+        orig_stop = of.stop
+
+        def stop():
+            n = len(entries)
+            lines.append('oblocks fstop')
+            try:
+                orig_stop()
+            except KeyError as err:
+                trace.append(f'KeyError {err.args[0]} ' + (' '.join(entries[n:]) or '-'))
+                raise
+            entries.append('superStop')
+            trace.append('ok ' + ' '.join(entries[n:]))
+        of.stop = stop
+        return of
+
+    async def drive(sim_, of):
+        trace.append(' '.join(entries) or '-')        # init_regular
+        for data in scn['puts']:
+            if sim_.circuit.error is not None:
+                break
+            n = len(entries)
+            lines.append('oblocks fput ' + enc_data(data))
+            try:
+                r = of.event('put', **data)
+                res = ('result ' + enc(r[1])) if r[0] == 'result' else f"error {1 if isinstance(r[1], RuntimeError) else '?'}"
+                steps.append(('ret', r[0]))
+            except KeyError as err:
+                res = f'KeyError {err.args[0]}'
+                steps.append(('ret', 'KeyError'))
+            trace.append(res + ' ' + (' '.join(entries[n:]) or '-'))
+    sim.run(build, drive)
+    return {'lines': lines, 'trace': trace, 'tags': ['kind=func', f"f_args={len(scn['fa'])}", f"f_kwargs={len(scn['fk'])}",
+                                                     f"stop_data={'none' if scn['sd'] is None else len(scn['sd'])}"],
+            'nontrivial': bool(scn['puts']) or scn['sd'] is not None, 'steps': [(a, _plain(b) if isinstance(b, dict) else b) for a, b in steps],
+            'entries': entries}
+
+
+def oracle_blocks(scn, res):
+    """independent checks from docs/sblocks1.rst"""
+    out = []
+
+    def bad(clause, what):
+        out.append({'clause': clause, 'what': what, 'sig': {'kind': scn['kind']}})
+    kind = scn['kind']
+    reply = res['trace'][0] if res['trace'] else ''
+    if kind in ('ctor', 'fctor'):
+        ok = reply.startswith('ok')
+        fa = dec_argspec(scn['fa'])
+        fa_ok = isinstance(fa, tuple) and all(isinstance(x, str) for x in fa)
+        if ok and not fa_ok:
+            bad('f_args_must_be_strings', f"f_args={fa!r} was accepted")
+        if kind == 'fctor':
+            fk = dec_argspec(scn['fk'])
+            if ok and not (isinstance(fk, tuple) and all(isinstance(x, str) for x in fk)):
+                bad('f_kwargs_must_be_strings', f"OutputFunc accepted f_kwargs={fk!r}")
+        if kind == 'ctor':
+            if ok and scn['mode'] not in ('c', 'cancel', 'w', 'wait', 's', 'start'):
+                bad('mode_values', f"mode {scn['mode']!r} was accepted")
+            if ok:
+                want = {'c': 'cancel', 'w': 'wait', 's': 'start'}[scn['mode'][0]]
+                if reply.split()[1] != want:
+                    bad('mode_values', f"mode {scn['mode']!r} selected the {reply.split()[1]} controller")
+                g_us = 0 if scn['g'] == 'n' else max(0, scn['g']) * TICK
+                if int(reply.split()[2]) != g_us:
+                    bad('guard_time_default', f"guard_time {scn['g']!r} stored as {reply.split()[2]} µs")
+                if g_us > res['attrs']['stop_timeout'] * 1e6:
+                    bad('guard_within_stop_timeout', f"guard_time {g_us} µs accepted with stop_timeout {res['attrs']['stop_timeout']}")
+            everything_fine = (fa_ok and scn['mode'] in ('c', 'cancel', 'w', 'wait', 's', 'start') and scn['g'] != 'b'
+                               and 'b' not in (scn['onS'], scn['onC'], scn['onE']) and scn['st'] != 'b'
+                               and (0 if scn['g'] == 'n' else max(0, scn['g'])) <= (40 if scn['st'] is None else scn['st']))
+            if everything_fine and not ok:
+                bad('valid_arguments_accepted', f'valid arguments were refused: {reply}')
+        return out
+    # OutputFunc: every put calls the function once with the named items; result / exception reported as documented
+    puts = [l for l in res['lines'] if l.startswith('oblocks fput')]
+    calls = [e for e in res['entries'] if e.startswith('call(')]
+    expected_calls = 0
+    datas = []
+    for data in scn['puts'][:len(puts)]:
+        datas.append(data)
+        if not all(k in data for k in scn['fa'] + scn['fk']):
+            break       # KeyError: the simulation is aborted, no further puts
+    if scn['sd'] is not None and 'oblocks fstop' in res['lines']:
+        datas.append(scn['sd'])
+    for data in datas:
+        if all(k in data for k in scn['fa'] + scn['fk']):
+            want = 'call(' + ','.join(enc(data[k]) for k in scn['fa']) + '|' + enc_data({k: data[k] for k in scn['fk']}) + ')'
+            if expected_calls >= len(calls) or calls[expected_calls] != want:
+                bad('function_gets_the_named_items', f'call {expected_calls}: expected {want}, calls were {calls}')
+                return out
+            expected_calls += 1
+    if len(calls) != expected_calls:
+        bad('function_called_once_per_put', f'{len(calls)} calls for {expected_calls} deliverable puts')
+    # each call is followed by its events: nS successes with the returned value, or nE errors
+    ents = res['entries']
+    for i, e in enumerate(ents):
+        if e.startswith('call('):
+            args = e[5:].split('|')[0]
+            boom = enc('boom') in e
+            follow = []
+            for f in ents[i + 1:]:
+                if f.startswith(('success', 'error')):
+                    follow.append(f)
+                else:
+                    break
+            if boom:
+                want = [f'error{d}:1' for d in range(scn['nE'])]
+            else:
+                first = args.split(',')[0] if args else enc(None)
+                want = [f'success{d}:{first}' for d in range(scn['nS'])]
+            if follow != want:
+                bad('result_events', f'after {e}: events {follow}, expected {want}')
+    if scn['sd'] is not None and 'oblocks fstop' in res['lines'] and calls:
+        sd = scn['sd']
+        if all(k in sd for k in scn['fa'] + scn['fk']):
+            want = 'call(' + ','.join(enc(sd[k]) for k in scn['fa']) + '|' + enc_data({k: sd[k] for k in scn['fk']}) + ')'
+            if calls[-1] != want:
+                bad('stop_data_last_call', f'the last call is {calls[-1]}, stop_data would be {want}')
+    if not ents or ents[0] != 'output:false':
+        bad('output_false', f'the output was not set to False first: {ents[:1]}')
     return out
